@@ -43,6 +43,9 @@ def ctor_options(cls, args, kw):
 def rebuild(cls, source, target, opts):
     """A fresh alignment of the same class with the same options (kernels are re-centred on the source)."""
     o = dict(opts)
+    given = o.pop("_source_arg", None)
+    if given is not None:
+        source = given.copy()      # the source exactly as the caller handed it to the constructor (a bare point cloud is triangulated there)
     if "kernel" in o:
         o["kernel"] = o["kernel"](source.points.copy()) if o["kernel"] is not None else None
     return cls(source, target, **o)
